@@ -396,7 +396,9 @@ func init() {
 	reg(&PropSpec{
 		ID: "X13", Level: "model_checking", Explanation: "experimental: Throttling burst bound (see DESIGN.md 17)", Assumptions: bmcAssumptions,
 		Jobs: func(tier string) []JobSpec {
-			return []JobSpec{{Group: "pipe", Harness: "VThrottleRate", Mode: "bmc", Params: map[string]int{"ops": 1, "cap": 0, "n": 4, "interval": 10, "clock": 1}, K: 40, Timeout: 1800000}}
+			return []JobSpec{{Group: "pipe", Harness: "VThrottleRate", Mode: "bmc", Params: map[string]int{"ops": 1, "cap": 0, "n": 4, "interval": 10, "clock": 1}, K: 40, Timeout: 1800000},
+				{Group: "pipe", Harness: "VThrottleBurst", Mode: "bmc", Params: map[string]int{"ops": 1, "cap": 0, "n": 4, "interval": 10, "clock": 2}, K: 48, Timeout: 1800000},
+				{Group: "pipe", Harness: "VThrottleBurst", Mode: "bmc", Params: map[string]int{"ops": 1, "cap": 2, "n": 6, "interval": 10, "clock": 2}, K: 64, Timeout: 1800000}}
 		},
 	})
 }
